@@ -256,7 +256,7 @@ Obs checkStructure(const DDI& d, size_t wantK, double slack, double sumTol, bool
 }
 
 // bracket of a function value against the representability of its argument (Beta: the top bounds lie within 1e-15 of 1
-// where one ulp moves the cdf by 1e-5; other families: the plain value)
+// where one ulp moves the cdf by 1e-5; Gamma with an offset: the lowest bounds are offset + 1e-50 = offset)
 template <class F> void bracketed(bool bracket, F f, double x, double lo, double hi, LD& dn, LD& up) {
   if (!bracket) { dn = up = f(x); return; }
   dn = f(std::max(lo, vf::ulpStep(x, -4))); up = f(std::min(hi, vf::ulpStep(x, 4)));
@@ -270,6 +270,14 @@ bool regularState(const Model& m, LD Flo, LD Fhi) {
   LD step = mass / m.K * (m.median ? 0.5L : 1.0L);
   if (m.K == 1 && !m.median) return true;
   return Flo + step >= U_MARGIN && Fhi - step <= 1 - U_MARGIN;
+}
+
+// Known defects that make an operation hang or leave garbage are characterised BEFORE the operation is made:
+// `next` is the state the operation leads to, [lo,hi] the domain it will have.
+void guardKnown(vf::Ctx& c, const Model& next, double lo, double hi) {
+  if (next.q.f == F_GAMMA && next.q.off < 0) c.excludeIfKnown("C09-gamma-negative-offset-expectation");
+  // median-valued classes are the class medians times (parent mean / mean of the medians): 0/0 when the mean is 0
+  if (next.median && next.scheme != SCH_EQINT && refE(next.q, hi) - refE(next.q, lo) == 0) c.excludeIfKnown("C09-median-zero-mean");
 }
 
 void checkCont(vf::Ctx& c, const DDI& d, const Model& m, const CheckOpt& opt, const string& where) {
@@ -289,7 +297,7 @@ void checkCont(vf::Ctx& c, const DDI& d, const Model& m, const CheckOpt& opt, co
   for (size_t k = 0; k <= K; ++k) CHECK(o.b[k] >= lo && o.b[k] <= hi, where << ": bound " << k << " = " << vf::dec(o.b[k]) << " lies outside the domain [" << vf::dec(lo) << ";" << vf::dec(hi) << "]");
 
   // ---- scheme
-  bool equalProb = true;
+  bool equalProb = m.scheme != SCH_EQINT;   // "when possible" may fall back to equal intervals (documented)
   for (size_t k = 0; k < K; ++k) if (std::abs(o.p[k] - 1.0 / static_cast<double>(K)) > 4 * EPS) equalProb = false;
   if (m.scheme == SCH_EQPROB) CHECK(equalProb, where << ": equal-probability scheme but the class probabilities are " << showVec(o.p));
   if (!equalProb) {  // equal intervals (requested, or the documented fall-back of "when possible")
@@ -301,7 +309,7 @@ void checkCont(vf::Ctx& c, const DDI& d, const Model& m, const CheckOpt& opt, co
   }
 
   // ---- class probability = parent mass of its interval (library cdf and external cdf)
-  const bool br = q.f == F_BETA;
+  const bool br = true;
   vector<LD> Fdn(K + 1), Fup(K + 1), Pdn(K + 1), Pup(K + 1);
   auto libP = [&](double x) -> LD { return d.pProb(x); };
   auto extP = [&](double x) -> LD { return refP(q, x); };
@@ -348,8 +356,11 @@ void checkCont(vf::Ctx& c, const DDI& d, const Model& m, const CheckOpt& opt, co
       // v_k = c * median_k with sum p_k v_k = parent mean
       double surf = std::abs(static_cast<double>(meanRef * mass));
       if (surf == 0) c.excludeIfKnown("C09-median-zero-mean");
-      if (surf < 100 * tolE && surf != 0) c.label("median_skipped_mean_near_zero");
-      else {
+      if (surf < 100 * tolE) {  // no usable proportionality factor: only the mean itself is compared
+        c.label("median_mean_near_zero");
+        double t = (102 * tolE + static_cast<double>(K) * tol.q * scale) / massD + slack;
+        CHECK(std::abs(static_cast<double>(dmean - meanRef)) <= t, where << ": discrete mean of the median-valued classes = " << vf::dec(static_cast<double>(dmean)) << " but the parent's mean over the domain is " << vf::dec(static_cast<double>(meanRef)) << " (tolerance " << t << "); values " << showVec(o.v));
+      } else {
         double uLo = d.pProb(lo), ec = (d.pProb(hi) - uLo) / static_cast<double>(K);
         vector<double> med(K); LD sum = 0;
         for (size_t k = 0; k < K; ++k) {
@@ -384,7 +395,7 @@ void checkCont(vf::Ctx& c, const DDI& d, const Model& m, const CheckOpt& opt, co
 void checkParent(vf::Ctx& c, const DDI& d, const CP& q, const string& where, int npts) {
   if (q.f == F_GAMMA && q.off < 0) c.excludeIfKnown("C09-gamma-negative-offset-expectation");
   const Tol tol = tolOf(q.f); const double scale = scaleOf(q), tolE = tol.e * scale;
-  const bool br = q.f == F_BETA;
+  const bool br = true;
   auto extP = [&](double x) -> LD { return refP(q, x); };
   // natural support (the functions of the parent do not depend on the restricted domain)
   double sLo = -INFINITY, sHi = INFINITY;
@@ -453,7 +464,7 @@ string showRestr(const Restr& r) { return string(r.in1 ? "[" : "]") + vf::dec(r.
 }  // namespace
 
 // =================================================================== L1: fresh objects, exhaustive over K
-LAW(L1_fresh_enum, ENUM, 0, 0, 0, "K >= 2 and (shape < 1 or median-valued classes or a non-default scheme)") {
+LAW(L1_fresh_enum, ENUM, 4, 4, 0, "K >= 2 and (shape < 1 or median-valued classes or a non-default scheme)", 10, true) {
   Fam f = static_cast<Fam>(c.below(NFAM));
   size_t K = static_cast<size_t>(c.irange(1, 32));
   bool median = c.flag();
@@ -477,12 +488,12 @@ LAW(L1_fresh_enum, ENUM, 0, 0, 0, "K >= 2 and (shape < 1 or median-valued classe
   unique_ptr<DDI> d = make(m.q, K, scheme);
   CheckOpt opt;
   checkCont(c, *d, m, opt, "after construction");
-  if (median) { d->setMedian(true); m.median = true; checkCont(c, *d, m, opt, "after setMedian(true)"); }
+  if (median) { m.median = true; guardKnown(c, m, d->getLowerBound(), d->getUpperBound()); d->setMedian(true); checkCont(c, *d, m, opt, "after setMedian(true)"); }
   checkParent(c, *d, m.q, "parent functions", 0);
 }
 
 // =================================================================== L2: histories on the continuous families
-LAW(L2_history, RC, 9000, 400000, 160, "K >= 2 and (a restriction, a class-count change or a rejected update occurred), or a shape < 1") {
+LAW(L2_history, RC, 9000, 400000, 160, "K >= 2 and (a restriction, a class-count change or a rejected update occurred), or a shape < 1", 10, true) {
   Model m; m.q = genCP(c, genFam(c)); m.K = genK(c); m.scheme = genScheme(c, m.q.f);
   bool startMedian = c.oneIn(3);
   CheckOpt opt; opt.lookT = 0.05 + 0.9 * c.unit();
@@ -490,8 +501,9 @@ LAW(L2_history, RC, 9000, 400000, 160, "K >= 2 and (a restriction, a class-count
   unique_ptr<DDI> d = make(m.q, m.K, m.scheme);
   checkCont(c, *d, m, opt, "after construction");
   checkParent(c, *d, m.q, "parent functions after construction", 1);
-  if (startMedian) { c.desc << "; setMedian(1)"; d->setMedian(true); m.median = true; checkCont(c, *d, m, opt, "after setMedian(true)"); }
+  if (startMedian) { c.desc << "; setMedian(1)"; m.median = true; guardKnown(c, m, d->getLowerBound(), d->getUpperBound()); d->setMedian(true); checkCont(c, *d, m, opt, "after setMedian(true)"); }
   bool restricted = false, kChanged = false, rejected = false;
+  bool texpBound = false;   // an accepted restriction made the domain object the constraint of the truncation point
   const string ns = nsOf(m.q.f);
   int nops = c.irange(0, 12);
   for (int op = 0; op < nops; ++op) {
@@ -520,8 +532,7 @@ LAW(L2_history, RC, 9000, 400000, 160, "K >= 2 and (a restriction, a class-count
           // where the update leads: known defects of the accepted path are characterised before the call
           double dlo = d->getLowerBound(), dhi = m.q.f == F_TEXP ? nq.b : d->getUpperBound();
           if (m.q.f == F_GAMMA && nq.off > dlo) c.excludeIfKnown("C09-gamma-offset-domain");
-          unique_ptr<DDI> probe = make(nq, 1, m.scheme);
-          if (probe->pProb(dhi) == probe->pProb(dlo)) c.excludeIfKnown("C09-zero-mass-fallback");
+          Model nm = m; nm.q = nq; guardKnown(c, nm, dlo, dhi);
         }
         Obs before = observeD(*d);
         try {
@@ -538,11 +549,13 @@ LAW(L2_history, RC, 9000, 400000, 160, "K >= 2 and (a restriction, a class-count
       case 2: {  // class count
         size_t nk = genK(c); c.desc << "; setNumberOfCategories(" << nk << ")"; w << "setNumberOfCategories(" << nk << ")";
         if (nk != m.K) kChanged = true;
-        d->setNumberOfCategories(nk); m.K = nk;
+        m.K = nk; guardKnown(c, m, d->getLowerBound(), d->getUpperBound());
+        d->setNumberOfCategories(nk);
         break; }
       case 3: {  // median toggle
         bool md = c.flag(); c.desc << "; setMedian(" << md << ")"; w << "setMedian(" << md << ")";
-        d->setMedian(md); m.median = md;
+        m.median = md; guardKnown(c, m, d->getLowerBound(), d->getUpperBound());
+        d->setMedian(md);
         break; }
       case 4: {  // restriction to a sub-interval with non-zero mass
         Restr r; double lo = d->getLowerBound(), hi = d->getUpperBound();
@@ -557,8 +570,12 @@ LAW(L2_history, RC, 9000, 400000, 160, "K >= 2 and (a restriction, a class-count
           bool hiIncl = r.x2 < hi ? r.in2 : r.x2 > hi ? !d->strictUpperBound() : (r.in2 && !d->strictUpperBound());
           expectThrow = !(m.q.b < nhi || (m.q.b == nhi && hiIncl)) || !(m.q.b > nlo);
         }
+        guardKnown(c, m, nlo, nhi);
+        // the domain object shared with the parameter is narrowed before the truncation point is validated
+        if (expectThrow && texpBound) c.excludeIfKnown("C09-texp-refused-restriction");
         try {
           d->restrictToConstraint(ic);
+          if (m.q.f == F_TEXP) texpBound = true;
           CHECK(!expectThrow, w.str() << ": restriction accepted although the truncation point is outside the new domain");
           restricted = true;
           CHECK(vf::sameBits(d->getLowerBound(), nlo) && vf::sameBits(d->getUpperBound(), nhi), w.str() << ": the domain is [" << vf::dec(d->getLowerBound()) << ";" << vf::dec(d->getUpperBound()) << "], expected the intersection [" << vf::dec(nlo) << ";" << vf::dec(nhi) << "]");
@@ -573,7 +590,7 @@ LAW(L2_history, RC, 9000, 400000, 160, "K >= 2 and (a restriction, a class-count
         unique_ptr<DDI> e(d->clone());
         string df = diffObs(observeD(*d), observeD(*e));
         CHECK(df.empty(), w.str() << ": the clone differs from the original in the " << df);
-        if (c.flag()) d = std::move(e);
+        if (c.flag()) { d = std::move(e); texpBound = false; }  // the copy's parameter still points to the domain object of the original
         break; }
       default: {  // assign over an object of the same class built with other parameters
         Model o2; o2.q = genCP(c, m.q.f); o2.K = genK(c); o2.scheme = genScheme(c, m.q.f);
@@ -582,7 +599,7 @@ LAW(L2_history, RC, 9000, 400000, 160, "K >= 2 and (a restriction, a class-count
         assignSame(m.q.f, *e, *d);
         string df = diffObs(observeD(*d), observeD(*e));
         CHECK(df.empty(), w.str() << ": the assigned object differs from the source in the " << df);
-        d = std::move(e);
+        d = std::move(e); texpBound = false;
         break; }
     }
     if (op >= nops) break;
@@ -617,19 +634,22 @@ LAW(L3_parent_functions, RC, 4000, 200000, 48, "a shape < 1, or parameters chang
 }
 
 // =================================================================== L4: one lookup per case
-LAW(L4_lookup, RC, 6000, 300000, 40, "K >= 2 and the point is not in the first class") {
+LAW(L4_lookup, RC, 6000, 300000, 40, "K >= 2 and the point is not in the first class", 10, true) {
   Model m; m.q = genCP(c, genFam(c)); m.K = genK(c); m.scheme = genScheme(c, m.q.f); m.median = c.oneIn(4);
   if (m.q.f == F_GAMMA && m.q.off < 0) m.q.off = -m.q.off;   // keep clear of the negative-offset finding: this law is about lookups
   unique_ptr<DDI> d = make(m.q, m.K, m.scheme);
-  if (m.median) d->setMedian(true);
   c.desc << showModel(m);
+  if (m.median) { guardKnown(c, m, d->getLowerBound(), d->getUpperBound()); d->setMedian(true); }
   if (c.oneIn(3)) {
     Restr r; auto massOf = [&](double a, double b) { return static_cast<double>(refP(m.q, b) - refP(m.q, a)); };
-    if (genRestriction(c, *d, true, massOf, r, m.q.f == F_TEXP)) { c.desc << " restricted to " << showRestr(r); d->restrictToConstraint(IntervalConstraint(r.x1, r.x2, r.in1, r.in2)); }
+    if (genRestriction(c, *d, true, massOf, r, m.q.f == F_TEXP)) {
+      c.desc << " restricted to " << showRestr(r);
+      guardKnown(c, m, std::max(r.x1, d->getLowerBound()), std::min(r.x2, d->getUpperBound()));
+      d->restrictToConstraint(IntervalConstraint(r.x1, r.x2, r.in1, r.in2));
+    }
   }
   LD Flo = refP(m.q, d->getLowerBound()), Fhi = refP(m.q, d->getUpperBound());
   if (!regularState(m, Flo, Fhi)) throw vf::Skip();
-  if (m.median && m.q.f == F_GAUSS && refE(m.q, d->getUpperBound()) - refE(m.q, d->getLowerBound()) == 0) c.excludeIfKnown("C09-median-zero-mean");
   const size_t K = m.K; const double slack = (K + 1) * precisionOf(*d);
   Vdouble b = d->getBounds(), v = d->getCategories();
   CHECK(b.size() == K + 1 && v.size() == K, "bounds/values have " << b.size() << "/" << v.size() << " entries for K=" << K);
